@@ -290,20 +290,24 @@ func (g *Gen) SparseDVFields(layout bool) *Case {
 	r := g.R
 	n := 2052 + r.Intn(200)
 	few := 5 + r.Intn(20)
-	b := g.Batch(BatchOpts{NDocs: n, NFields: 2, NVocab: 4, ForceDV: true, NoStored: true, AllFields: true})
+	b := g.Batch(BatchOpts{NDocs: n, NFields: 3, NVocab: 4, ForceDV: true, NoStored: true, AllFields: true})
 	// "body" (earlier in field order) keeps values only in the first few documents;
-	// "title" has them there and in the last chunk, nothing in documents 1024..2047
+	// "title" has them there and in the last chunk, nothing in documents 1024..2047;
+	// "tags" fills the whole first chunk and has nothing afterwards
 	for d := few; d < n; d++ {
 		var doc Doc
 		for _, f := range b[d] {
-			if f.N == fieldNames[0] || (f.N == fieldNames[1] && d < 2048) {
+			if f.N == fieldNames[0] || (f.N == fieldNames[1] && d < 2048) || (f.N == fieldNames[2] && d >= 1024) {
 				continue
 			}
 			doc = append(doc, f)
 		}
 		b[d] = doc
 	}
-	ops := []Op{{Code: OpBuild, CM: 1025, Batch: b}}
+	// a small segment in front of it: in the merge every document number is shifted, so the
+	// first chunk of the big input spreads over two chunks of the output
+	small := g.Batch(BatchOpts{NDocs: 3 + r.Intn(12), NFields: 3, NVocab: 4, ForceDV: true, NoStored: true, IDPrefix: "s"})
+	ops := []Op{{Code: OpBuild, CM: 1025, Batch: b}, {Code: OpBuild, CM: g.ChunkMode(), Batch: small}}
 	fs := BatchFields(b)
 	visits := []uint64{uint64(r.Intn(few)), uint64(2048 + r.Intn(n-2048)), uint64(n - 1), uint64(1024 + r.Intn(1024)), uint64(r.Intn(few)), 2048, 1023, 0}
 	ops = append(ops, Op{Code: OpDV, Slot: 0, RdSlot: 1, Fields: fs, Visits: visits})
@@ -312,11 +316,14 @@ func (g *Gen) SparseDVFields(layout bool) *Case {
 	} else {
 		ops = append(ops, Op{Code: OpObsAll, Slot: 0})
 	}
-	ops = append(ops, Op{Code: OpMerge, CM: 1025, Ins: []MergeIn{{Slot: 0, Drops: g.subset(n, 9)}}})
-	if layout {
-		ops = append(ops, Op{Code: OpLayout, Slot: 1})
-	} else {
-		ops = append(ops, Op{Code: OpObsAll, Slot: 1})
+	ops = append(ops, Op{Code: OpMerge, CM: 1025, Ins: []MergeIn{{Slot: 0, Drops: g.subset(n, 9)}}},
+		Op{Code: OpMerge, CM: 1025, Ins: []MergeIn{{Slot: 1, DropsNil: true}, {Slot: 0, DropsNil: true}}})
+	for _, sl := range []int{2, 3} {
+		if layout {
+			ops = append(ops, Op{Code: OpLayout, Slot: sl})
+		} else {
+			ops = append(ops, Op{Code: OpObsAll, Slot: sl})
+		}
 	}
 	c.Ops = ops
 	c.tag("multi_dvchunk")
